@@ -12,4 +12,4 @@ CONSTANTS
   NtsPtShapes <- PtDeep
   SckLens <- SckLensDeep
   SckNs <- SckNsDeep
-INVARIANTS PLay PLayb PLvm PNts PSck
+INVARIANTS PLay PLayb PLayp PLvm PNts PSck
